@@ -14,7 +14,7 @@ RULE = ('cases: random balanced forests over ( ) [ ] CASE END IF "END IF" FOR FO
         'delete/duplicate/transpose/insert edits (unmatched and crossing pairs), plus all other text sources; per statement the set of '
         '(class, first leaf, last leaf) of the Parenthesis/SquareBrackets/Case/If/For/Begin nodes (last leaf after dropping attached trailing '
         'comments/whitespace) must equal what a textbook hierarchical stack matcher predicts from the statement\'s own leaves, and each node must '
-        'start with its opener and end with its closer. non-trivial: >=2 matched pairs of >=2 kinds and >=1 unmatched opener/closer; distinct by text')
+        'start with its opener and end with its closer. leg deep: one pair of every kind inside d nested groups of every kind, d in {3..250} incl. 99-102, enumerated completely (inputs the recursion guard rejects with SQLParseError are counted, not compared). non-trivial: >=2 matched pairs of >=2 kinds and >=1 unmatched opener/closer; distinct by text')
 ASSUMPTIONS = ['keyword delimiters compare case-insensitively and modulo the whitespace inside multi-word keywords (END  LOOP is END LOOP)']
 
 CLASSES = {'SquareBrackets': sql.SquareBrackets, 'Parenthesis': sql.Parenthesis, 'Case': sql.Case, 'If': sql.If, 'For': sql.For, 'Begin': sql.Begin}
@@ -101,4 +101,37 @@ def _strategy(tier):
                      sources.any_text(tier, weights=(1, 2, 1, 1, 1, 2, 1, 1, 1, 2))).map(lambda t: {'text': t})
 
 
-LEGS = [Leg('text', check=check, strategy=_strategy, examples={'quick': 15000, 'thorough': 300000})]
+INNER = {'case': 'case when a then b end', 'if': 'if a then b end if', 'for': 'for i in x loop y end loop', 'begin': 'begin x end', 'paren': '(x)', 'brack': 'a[1]',
+         'mixed': 'case when (a[1]) then begin x end end'}
+OUTER = {'paren': ('(', ')'), 'brack': ('a[', ']'), 'case': ('case when a then ', ' end'), 'begin': ('begin ', ' end'), 'if': ('if a then ', ' end if'),
+         'paren-case': ('(case when a then ', ' end)'), 'call': ('f(', ')')}
+DEPTHS = {'quick': [3, 30, 60, 99, 100, 101, 102, 120, 150, 250], 'thorough': [3, 10, 30, 60, 90, 99, 100, 101, 102, 110, 127, 128, 129, 150, 200, 250, 255, 256, 257, 300]}
+
+
+def _deep(tier):
+    """a matched pair of every kind inside d nested groups of every other kind (depth is part of 'every str')"""
+    for o, (op, cl) in sorted(OUTER.items()):
+        for i, inner in sorted(INNER.items()):
+            for d in DEPTHS[tier]:
+                yield {'text': 'select ' + op * d + inner + cl * d + ' from t'}
+                yield {'text': op * d + inner + ' ; ' + inner + cl * d}
+
+
+def check_deep(case):
+    try:
+        sqlparse.parse(case['text'])
+    except sqlparse.exceptions.SQLParseError:
+        # too deep for the interpreter's recursion limit: reported cleanly (C15), nothing to compare
+        res = Result(key=case['text'][:200] + str(len(case['text'])))
+        res.labels = ['too-deep']
+        return res
+    except Exception:
+        pass
+    res = check(case)
+    res.key = case['text'][:200] + str(len(case['text']))
+    res.nontrivial = True
+    return res
+
+
+LEGS = [Leg('deep', check=check_deep, enumerate=_deep, exhaustive=True),
+        Leg('text', check=check, strategy=_strategy, examples={'quick': 15000, 'thorough': 300000})]
